@@ -9,6 +9,7 @@ from canary import parse_header
 
 lines = []
 lines.append('### 12.1 Canaries (written by me, `canaries/mutants.py`; each compiles and is applied to a scratch copy)\n')
+lines.append('(198 generated from `canaries/mutants.py` plus 8 `h-*.patch` files: the round-h independent defects that led to new clauses, kept as canaries under the key of the clause they must trigger, so that the thorough tier\'s self-test covers those clauses.)\n')
 lines.append('| canary | property check(s) that must fire | expected key fragment | what the defect is |')
 lines.append('|---|---|---|---|')
 cdir = os.path.join(VERIF, 'canaries')
